@@ -191,15 +191,89 @@ func fieldRound(rng *rand.Rand, rec *ev.Rec) {
 	rec.Nontrivial(out[:], rb, []byte{byte(i), byte(j), byte(k)})
 }
 
+// maxLimb is the largest limb of a representation.
+func maxLimb(a *fe) uint64 {
+	var m uint64
+	for i := 0; i < mon.FieldLimbs; i++ {
+		if v := mon.FLimb(a, i); v > m {
+			m = v
+		}
+	}
+	return m
+}
+
+// adaptiveOps: the lazily-reduced routines are specified only for the operand
+// magnitudes their callers produce.  What the callers produce is *measured*
+// (operand envelope of the API phase); the routines are then driven with
+// boundary-heavy operands of every form (R, one-level, two-level) whose
+// magnitude stays within that measured envelope.  On the pinned tree this
+// selects exactly the forms listed in DESIGN.md; if a change makes the group
+// law pass larger operands to a routine, the routine is driven with them.
+var adaptiveOps = []string{"Add", "Sub", "AddReduce", "SubReduce", "AddAfterBasic", "SubAfterBasic", "Neg"}
+
+func adaptiveRound(rng *rand.Rand, rec *ev.Rec) {
+	a, b, c := genR(rng), genR(rng), genR(rng)
+	var s1, d1, e1, e3, e4 fe
+	curve25519.Add(&s1, &a, &b)
+	curve25519.Sub(&d1, &a, &c)
+	curve25519.AddAfterBasic(&e1, &s1, &c)
+	curve25519.SubAfterBasic(&e3, &s1, &c)
+	curve25519.SubAfterBasic(&e4, &c, &d1)
+	forms := []fe{a, b, c, s1, d1, e1, e3, e4}
+	pick := func(fn, operand string) *fe {
+		lim := mon.EnvMax("api", fn, operand)
+		for try := 0; try < 12; try++ {
+			f := forms[rng.Intn(len(forms))]
+			if maxLimb(&f) <= lim {
+				return &f
+			}
+		}
+		return nil
+	}
+	for _, fn := range adaptiveOps {
+		x := pick(fn, "a")
+		if x == nil {
+			continue
+		}
+		var o fe
+		if fn == "Neg" {
+			curve25519.Neg(&o, x)
+			rec.Class("adaptive/Neg", 1)
+			continue
+		}
+		y := pick(fn, "b")
+		if y == nil {
+			continue
+		}
+		switch fn {
+		case "Add":
+			curve25519.Add(&o, x, y)
+		case "Sub":
+			curve25519.Sub(&o, x, y)
+		case "AddReduce":
+			curve25519.AddReduce(&o, x, y)
+		case "SubReduce":
+			curve25519.SubReduce(&o, x, y)
+		case "AddAfterBasic":
+			curve25519.AddAfterBasic(&o, x, y)
+		case "SubAfterBasic":
+			curve25519.SubAfterBasic(&o, x, y)
+		}
+		rec.Class("adaptive/"+fn, 1)
+	}
+}
+
 func runC18(cfg *Cfg, rec *ev.Rec) {
 	mon.Install(rec, cfg.Config, true, false, false, false)
 	rng := cfg.rng("c18")
+	// field events produced by real API executions first: they yield the
+	// operand envelope per routine
+	apiRounds(cfg, rec, cfg.n(160, 3200), "c18-api")
 	n := cfg.n(40000, 1500000)
 	for i := 0; i < n; i++ {
 		fieldRound(rng, rec)
+		adaptiveRound(rng, rec)
 	}
-	// field events produced by real API executions (operand envelope)
-	apiRounds(cfg, rec, cfg.n(160, 3200), "c18-api")
 }
 
 func replayField(rec *ev.Rec, c map[string]interface{}) {
